@@ -177,9 +177,10 @@ def ext_of(fmt):
     return {"npy": ".npy", "fits": ".fits", "txt": ".txt", "data": ".data", "csv": ".csv", "fitstable": ".fits"}[fmt]
 
 
-def run_model(case, path):
+def run_model(case, path, working_directory=None):
     """run one of the loading models inside a real single-readout exposure; return the bucket"""
     import pyx
+    from pyxel.exposure import Exposure, Readout
 
     det = pyx.make_detector("CCD", case["oy"], case["ox"])
     via = case["via"]
@@ -201,21 +202,25 @@ def run_model(case, path):
         bucket = "charge"
     else:
         raise ValueError(via)
-    res = pyx.run(pyx.make_exposure(times=[1.0]), det, pyx.make_pipeline(groups))
+    mode = Exposure(readout=Readout(times=[1.0]), working_directory=working_directory)  # sets the global option
+    res = pyx.run(mode, det, pyx.make_pipeline(groups))
     return res[bucket].values[0]
 
 
-def impl_load(case, path):
+def impl_load(case, path, working_directory=None):
     """`direct` = load_cropped_and_aligned_image, else through a model"""
     try:
         if case["via"] == "direct":
+            import pyxel
             from pyxel.util import load_cropped_and_aligned_image
+
+            pyxel.set_options(working_directory=working_directory)
 
             out = load_cropped_and_aligned_image(shape=(case["oy"], case["ox"]), filename=path,
                                                  position_x=case["pos"][1], position_y=case["pos"][0],
                                                  align=case["align"])
         else:
-            out = run_model(case, path)
+            out = run_model(case, path, working_directory)
     except Exception as e:  # noqa: BLE001
         return err_answer(e)
     return {"ok": grid_bits(out)}
@@ -227,31 +232,57 @@ def impl_model_case(case, tmp):
     return impl_load(case, path)
 
 
+def real_path(base, logical):
+    """logical path -> real path: 'cwd/x' lives under the process's current directory, '/wdK/x' under base"""
+    return os.path.join(base, logical.lstrip("/"))
+
+
+def designated(wd, name):
+    """the file a (possibly relative) name designates under working directory `wd` (logical paths)"""
+    if name.startswith("/"):
+        return name
+    return (wd + "/" + name) if wd else ("cwd/" + name)
+
+
 def impl_history(case, tmp):
     """events on a few paths inside one process; every load answers {"ok": grid} / {"err": …}"""
-    import numpy as np
+    import pyxel
 
     base = os.path.join(tmp, f"h{case['id']}")
-    os.makedirs(base, exist_ok=True)
+    os.makedirs(os.path.join(base, "cwd"), exist_ok=True)
     answers = []
     last_write = 0.0
-    for ev in case["events"]:
-        path = os.path.join(base, ev["path"])
-        if ev["ev"] == "write":
-            # the repaired key is (inode, size, mtime_ns): keep two writes of one path apart in time
-            wait = 0.012 - (time.time() - last_write)
-            if wait > 0:
-                time.sleep(wait)
-            write_file(path, version_array(ev), "npy", how=ev["how"])
-            last_write = time.time()
-            answers.append(None)
-        elif ev["ev"] == "remove":
-            if os.path.exists(path):
-                os.remove(path)
-            answers.append(None)
-        else:
-            c = {"oy": case["oy"], "ox": case["ox"], "pos": ev["pos"], "align": ev["align"], "via": ev["via"]}
-            answers.append(impl_load(c, path))
+    wd = ""
+    old_cwd = os.getcwd()
+    os.chdir(os.path.join(base, "cwd"))
+    try:
+        for ev in case["events"]:
+            if ev["ev"] == "write":
+                path = real_path(base, ev["path"])
+                os.makedirs(os.path.dirname(path), exist_ok=True)
+                # the repaired key is (inode, size, mtime_ns): keep two writes apart in time
+                wait = 0.012 - (time.time() - last_write)
+                if wait > 0:
+                    time.sleep(wait)
+                write_file(path, version_array(ev), "npy", how=ev["how"])
+                last_write = time.time()
+                answers.append(None)
+            elif ev["ev"] == "remove":
+                path = real_path(base, ev["path"])
+                if os.path.exists(path):
+                    os.remove(path)
+                answers.append(None)
+            elif ev["ev"] == "setwd":
+                wd = ev["wd"]
+                answers.append(None)
+            else:
+                name = ev["name"]
+                arg = real_path(base, name) if name.startswith("/") else name
+                c = {"oy": case["oy"], "ox": case["ox"], "pos": ev["pos"], "align": ev["align"], "via": ev["via"]}
+                answers.append(impl_load(c, arg, real_path(base, wd) if wd else None))
+    finally:
+        os.chdir(old_cwd)
+        pyxel.set_options(working_directory=None)
     return answers
 
 
@@ -338,25 +369,27 @@ def req_memo(case):
             evs.append({"ev": "write", "path": ev["path"], "content": ev["version"], "statable": True})
         elif ev["ev"] == "remove":
             evs.append({"ev": "remove", "path": ev["path"]})
+        elif ev["ev"] == "setwd":
+            evs.append({"ev": "setwd", "wd": ev["wd"]})
         else:
             k = json.dumps([ev["pos"], ev["align"]])
             args_ids.setdefault(k, len(args_ids))
-            evs.append({"ev": "load", "path": ev["path"], "args": args_ids[k]})
+            evs.append({"ev": "load", "name": ev["name"], "args": args_ids[k]})
     return {"op": "memo", "events": evs}, args_ids
 
 
 def label_history(case, answers, args_ids):
     """canonical form comparable with the Lean trace: for every load [args id, version it shows]"""
     out = []
-    written: dict = {}
-    current: dict = {}
+    written: list = []
+    wd = ""
     for ev, ans in zip(case["events"], answers):
         if ev["ev"] == "write":
-            written.setdefault(ev["path"], []).append(ev)
-            current[ev["path"]] = ev
+            written.append(ev)
             out.append(None)
-        elif ev["ev"] == "remove":
-            current.pop(ev["path"], None)
+        elif ev["ev"] in ("remove", "setwd"):
+            if ev["ev"] == "setwd":
+                wd = ev["wd"]
             out.append(None)
         else:
             aid = args_ids[json.dumps([ev["pos"], ev["align"]])]
@@ -364,12 +397,10 @@ def label_history(case, answers, args_ids):
                 out.append("OSError" if ans["err"] in ("OSError", "FileNotFoundError") else "err:" + ans["err"] + ":" + ans.get("tag", ""))
                 continue
             lab = "unknown"
-            for w in written.get(ev["path"], []):
+            for w in written:  # versions are globally distinct
                 exp = expected_placed(case, ev, w)
                 if exp is not None and exp == ans["ok"]:
                     lab = [aid, w["version"]]
-                    if current.get(ev["path"]) is w:
-                        break
             out.append(lab)
     return out
 
@@ -392,16 +423,20 @@ def center_trunc(ay, ax, oy, ox):
 def statement_history(case, answers):
     """`What a model loads always reflects the file's content at the time of the run`"""
     current: dict = {}
+    wd = ""
     for n, (ev, ans) in enumerate(zip(case["events"], answers)):
         if ev["ev"] == "write":
             current[ev["path"]] = ev
         elif ev["ev"] == "remove":
             current.pop(ev["path"], None)
+        elif ev["ev"] == "setwd":
+            wd = ev["wd"]
         else:
-            w = current.get(ev["path"])
+            target = designated(wd, ev["name"])
+            w = current.get(target)
             if w is None:
                 if "err" not in ans:
-                    return f"event {n}: load of a removed file returned data"
+                    return f"event {n}: load of '{ev['name']}' (designates the missing file '{target}') returned data"
                 continue
             a = version_array(w)
             ay, ax = a.shape
@@ -413,12 +448,13 @@ def statement_history(case, answers):
                 return f"event {n}: load of an existing, overlapping file failed: {ans}"
             if ans["ok"] in [x for x in allowed if x is not None]:
                 continue
-            # which older version is it?
-            older = [e for e in case["events"][:n] if e["ev"] == "write" and e["path"] == ev["path"] and e is not w]
-            for o in older:
+            # which other version is it?
+            for o in [e for e in case["events"][:n] if e["ev"] == "write" and e is not w]:
                 if expected_placed(case, ev, o) == ans["ok"]:
-                    return (f"event {n}: load via {ev['via']} of '{ev['path']}' returned version {o['version']} "
-                            f"although the file holds version {w['version']} (rewritten {w['how']})")
+                    where = "an earlier version of the same file" if o["path"] == target else f"the content of another file ('{o['path']}')"
+                    return (f"event {n}: load via {ev['via']} of '{ev['name']}' (working directory '{wd}', designates '{target}') "
+                            f"returned version {o['version']} — {where} — although the file holds version {w['version']} "
+                            f"(rewritten {w['how']})")
             return f"event {n}: load returned neither the current nor an earlier content"
     return None
 
@@ -502,39 +538,77 @@ def gen_model_cases(rng, n):
 
 
 def gen_history(rng, n):
+    """histories of writes / removals / changes of working directory / loads in one process.
+    Logical paths: 'cwd/<name>' (under the process's current directory), '/wd1/<name>', '/wd2/<name>'."""
     cases = []
     for i in range(n):
         oy, ox = rng.choice([2, 3, 4]), rng.choice([2, 3, 5])
-        paths = ["a.npy", "b.npy"][: rng.choice([1, 1, 2])]
+        with_wd = i % 2 == 1
+        names = ["data/a.npy", "b.npy"][: rng.choice([1, 1, 2])]
+        roots = ["cwd", "/wd1", "/wd2"] if with_wd else ["/abs"]
         events, version = [], 0
-        shape = {p: [rng.choice([2, 3, 4]), rng.choice([2, 3, 4])] for p in paths}  # always overlaps for |offset| ≤ 1
+        shapes: dict = {}
         fixed_args = {"pos": [rng.randrange(-1, 2), rng.randrange(-1, 2)], "align": rng.choice(ALIGNS + [None, None])}
-        for p in paths:
+
+        def write(path, how=None, new_shape=False):
+            nonlocal version
             version += 1
-            events.append({"ev": "write", "path": p, "version": version, "shape": shape[p], "how": "inplace"})
-        nev = rng.choice([3, 4, 6, 8])
-        for k in range(nev):
-            p = rng.choice(paths)
+            if path not in shapes or new_shape:
+                shapes[path] = [rng.choice([2, 3, 4]), rng.choice([2, 3, 4])]  # always overlaps for |offset| ≤ 1
+            events.append({"ev": "write", "path": path, "version": version, "shape": shapes[path],
+                           "how": how or rng.choice(["inplace", "inplace", "replace"])})
+
+        def load(name, via=None, fixed=True):
+            a = dict(fixed_args) if fixed else {"pos": [rng.randrange(-1, 2), rng.randrange(-1, 2)], "align": None}
+            events.append({"ev": "load", "name": name, "via": via or rng.choice(["direct", "direct", "load_image", "load_charge"]), **a})
+
+        def ref(root, name):  # how a model would name the file
+            return f"{root}/{name}" if root.startswith("/") and (not with_wd or rng.random() < 0.25) else name
+
+        wd = ""
+        if with_wd:
+            # a same-named bystander under the current directory (usually), the real input under /wd1
+            if rng.random() < 0.8:
+                write(f"cwd/{names[0]}", "inplace")
+            write(f"/wd1/{names[0]}", "inplace")
+            if rng.random() < 0.5:
+                write(f"/wd2/{names[0]}", "inplace")
+            wd = "/wd1"
+            events.append({"ev": "setwd", "wd": wd})
+        else:
+            for nm in names:
+                write(f"/abs/{nm}", "inplace")
+        for k in range(rng.choice([3, 4, 6, 8])):
+            nm = rng.choice(names)
             r = rng.random()
-            if k == 0 or r < 0.5:
-                a = dict(fixed_args) if rng.random() < 0.8 else {"pos": [rng.randrange(-1, 2), rng.randrange(-1, 2)], "align": None}
-                events.append({"ev": "load", "path": p, "via": rng.choice(["direct", "direct", "load_image", "load_charge"]), **a})
+            if k == 0 or r < 0.45:
+                if with_wd:
+                    load(nm if rng.random() < 0.8 else f"{rng.choice(['/wd1', '/wd2'])}/{nm}", fixed=rng.random() < 0.8)
+                else:
+                    load(f"/abs/{nm}", fixed=rng.random() < 0.8)
+            elif r < 0.8:
+                root = rng.choice(roots)
+                write(f"{root}/{nm}" if root.startswith("/") else f"cwd/{nm}", new_shape=rng.random() < 0.25)
             elif r < 0.9:
-                version += 1
-                if rng.random() < 0.25:
-                    shape[p] = [rng.choice([2, 3, 4]), rng.choice([2, 3, 4])]
-                events.append({"ev": "write", "path": p, "version": version, "shape": shape[p],
-                               "how": rng.choice(["inplace", "inplace", "replace"])})
-            else:
-                events.append({"ev": "remove", "path": p})
-        # always end with: rewrite (same shape ⇒ same size), then the same load as before
-        p = paths[0]
-        events.append({"ev": "load", "path": p, "via": "direct", **fixed_args})
-        version += 1
-        last = [e for e in events if e["ev"] == "write" and e["path"] == p][-1]
-        events.append({"ev": "write", "path": p, "version": version, "shape": last["shape"], "how": rng.choice(["inplace", "replace"])})
-        events.append({"ev": "load", "path": p, "via": rng.choice(["direct", "load_image", "load_charge"]), **fixed_args})
-        events.append({"ev": "load", "path": p, "via": "direct", **fixed_args})
+                root = rng.choice(roots)
+                events.append({"ev": "remove", "path": f"{root}/{nm}" if root.startswith("/") else f"cwd/{nm}"})
+            elif with_wd:
+                wd = rng.choice(["", "/wd1", "/wd2"])
+                events.append({"ev": "setwd", "wd": wd})
+        # always end with: load, rewrite of the designated file (same shape ⇒ same size), the same load again
+        nm = names[0]
+        if with_wd:
+            wd = "/wd1"
+            events.append({"ev": "setwd", "wd": wd})
+            target, name = f"/wd1/{nm}", nm
+        else:
+            target = name = f"/abs/{nm}"
+        if target not in shapes:
+            write(target, "inplace")
+        load(name, via="direct")
+        write(target)
+        load(name, via=rng.choice(["direct", "load_image", "load_charge"]))
+        load(name, via="direct")
         cases.append({"stream": "history", "id": i, "oy": oy, "ox": ox, "events": events})
     return cases
 
@@ -603,7 +677,7 @@ def violation_key(case, why):
     if s == "model":
         return f"C20:{case['via']}:placement"
     if s == "history":
-        return "C20:stale-cache" if ("returned version" in why or "removed file" in why) else "C20:history"
+        return "C20:stale-cache" if ("returned version" in why or "missing file" in why) else "C20:history"
     return f"C20:load_{case['loader']}:{'text' if case['fmt'] in ('txt', 'data', 'csv') else case['fmt']}:" + (
         "values" if "value at" in why else "shape-or-error")
 
@@ -678,11 +752,14 @@ def body(ck: common.Check):
             elif s == "history":
                 ck.case(case, nontrivial=True, stream=s)
                 for ev in case["events"]:
-                    ck.count(f"history:{ev['ev']}" + (f":{ev['how']}" if ev["ev"] == "write" else "") + (f":{ev['via']}" if ev["ev"] == "load" else ""))
+                    ck.count(f"history:{ev['ev']}" + (f":{ev['how']}" if ev["ev"] == "write" else "")
+                             + (f":{ev['via']}:{'absolute' if ev['name'].startswith('/') else 'relative'}" if ev["ev"] == "load" else "")
+                             + ((":set" if ev["wd"] else ":unset") if ev["ev"] == "setwd" else ""))
                 lab = label_history(case, impl, memo_ids[n])
                 if lab != ans["model"]:
-                    ck.disagreement(s, case, lab, ans["model"], key="C20:stale-cache" if lab == ans["stale"] else None)
-                    ck.count("history:behaves-like-unrepaired-keying" if lab == ans["stale"] else "history:other-disagreement")
+                    ck.disagreement(s, case, lab, ans["model"], key="C20:stale-cache" if lab in (ans["stale"], ans["unresolved"]) else None)
+                    ck.count("history:behaves-like-unrepaired-keying" if lab == ans["stale"] else
+                             "history:behaves-like-identity-of-unresolved-name" if lab == ans["unresolved"] else "history:other-disagreement")
                 if ans["model"] != ans["spec"]:
                     raise common.InfraError("Lean memo model and its spec disagree — model bug")
             elif s == "format":
